@@ -79,13 +79,15 @@ class FitYamlWriter(YamlWriterMixin, FitDReprBase):
             if _asymmetric_parameter_errors is None and self._kafe_object._loaded_result_dict is not None:
                 _asymmetric_parameter_errors = self._kafe_object._loaded_result_dict["asymmetric_parameter_errors"]
 
-            _preface_comment += get_compact_representation(
-                parameter_names=self._kafe_object.parameter_names,
-                parameter_values=self._kafe_object.parameter_values,
-                parameter_errors=self._kafe_object.parameter_errors,
-                parameter_cor_mat=self._kafe_object.parameter_cor_mat,
-                asymmetric_parameter_errors=_asymmetric_parameter_errors,
-            )
+            _parameter_cor_mat = self._kafe_object.parameter_cor_mat
+            if _parameter_cor_mat is not None:  # (not available if the parameter uncertainties could not be determined)
+                _preface_comment += get_compact_representation(
+                    parameter_names=self._kafe_object.parameter_names,
+                    parameter_values=self._kafe_object.parameter_values,
+                    parameter_errors=self._kafe_object.parameter_errors,
+                    parameter_cor_mat=_parameter_cor_mat,
+                    asymmetric_parameter_errors=_asymmetric_parameter_errors,
+                )
         _preface_comment += "\n"
         return _preface_comment
 
